@@ -410,6 +410,30 @@ Proof.
   inversion Hv'. split; reflexivity.
 Qed.
 
+(* the three flag-level theorems of Proofs/Exec.v in their own shape (top of the body), lifted
+   to the discovered signature *)
+Corollary discover_unrelated_call_invariant va vk res own plain have_ast l1 l2 f :
+  va <> vk -> block_ok va vk (l1 ++ l2) = true -> names_ok va vk (SOther f) = true ->
+  discovered va vk res own plain have_ast (l1 ++ SOther f :: l2)
+  = discovered va vk res own plain have_ast (l1 ++ l2).
+Proof. intros Hne Hok Hf. exact (discover_insert_neutral_top va vk Hne res own plain have_ast l1 (SOther f) l2 Hok Hf eq_refl). Qed.
+
+Corollary discover_pass_args_invariant va vk res own plain have_ast l1 l2 f :
+  va <> vk -> block_ok va vk (l1 ++ l2) = true -> names_ok va vk (SPass f SA) = true ->
+  discovered va vk res own plain have_ast (l1 ++ SPass f SA :: l2)
+  = discovered va vk res own plain have_ast (l1 ++ l2).
+Proof. intros Hne Hok Hf. exact (discover_insert_neutral_top va vk Hne res own plain have_ast l1 (SPass f SA) l2 Hok Hf eq_refl). Qed.
+
+Corollary discover_branch_context_invariant va vk res own plain have_ast l1 a b l2 :
+  va <> vk -> block_ok va vk (l1 ++ a ++ b ++ l2) = true ->
+  discovered va vk res own plain have_ast (l1 ++ SIf a b :: l2)
+  = discovered va vk res own plain have_ast (l1 ++ a ++ b ++ l2).
+Proof.
+  intros Hne Hok.
+  pose proof (discover_branch_anywhere va vk Hne res own plain have_ast (CHere l1 l2) a b) as H.
+  cbn [plug app] in H. rewrite <- app_assoc in H. exact (H Hok).
+Qed.
+
 (* ------------------------------------------------------------------ *)
 (* what is NOT invariant                                                *)
 
@@ -485,6 +509,9 @@ Print Assumptions discover_pass_args_anywhere.
 Print Assumptions walker_branch_anywhere.
 Print Assumptions discover_branch_anywhere.
 Print Assumptions discover_branch_neutral_arm_anywhere.
+Print Assumptions discover_unrelated_call_invariant.
+Print Assumptions discover_pass_args_invariant.
+Print Assumptions discover_branch_context_invariant.
 Print Assumptions C06_discover_neutral_env.
 Print Assumptions C06_discover_branch_env.
 Print Assumptions discover_pass_kwargs_refuted.
